@@ -23,6 +23,8 @@ const vfsRootPath = "/vfs"
 type fsInode struct {
 	id      int
 	dir     bool
+	fifo    bool // a named pipe: content is the queue, writers the open writing ends
+	writers int
 	content []Int
 	mtime   int // logical time of the last content change
 }
@@ -91,6 +93,9 @@ type fileObj struct {
 	ino *fsInode
 	off int
 	eof value
+	// a read deadline has been set (and is due: the code under test only
+	// ever sets time.Now())
+	deadline bool
 }
 
 // infoObj serves as fs.FileInfo and fs.DirEntry.
@@ -252,6 +257,28 @@ func (e *Exec) fsIntrinsic(name string, args []value) (value, bool) {
 		o.ino.content = append([]Int{}, n.ino.content...)
 		e.fsTouch(o.ino)
 		return nil, true
+	case "vfsMkfifo":
+		if e.fsLookup(args[0]) == nil {
+			ino := e.fsNewInode(false)
+			ino.fifo = true
+			e.fs.nodes = append(e.fs.nodes, &fsNode{name: args[0], ino: ino})
+		}
+		return nil, true
+	case "vfifoOpen":
+		if n := e.fsLookup(args[0]); n != nil && n.ino.fifo {
+			n.ino.writers++
+		}
+		return nil, true
+	case "vfifoWrite":
+		if n := e.fsLookup(args[0]); n != nil && n.ino.fifo && n.ino.writers > 0 {
+			n.ino.content = append(n.ino.content, strBytes(args[1])...)
+		}
+		return nil, true
+	case "vfifoClose":
+		if n := e.fsLookup(args[0]); n != nil && n.ino.fifo && n.ino.writers > 0 {
+			n.ino.writers--
+		}
+		return nil, true
 	case "vfsExists":
 		return Bool{C: e.fsLookup(args[0]) != nil}, true
 	case "vfsMkdir":
@@ -340,6 +367,51 @@ func init() {
 		if len(buf) == 0 {
 			return tuple{mkI64(0), iface{}}
 		}
+		if f.ino.fifo {
+			// a pipe opened O_NONBLOCK, read through Go's poller: data if
+			// there is any (a chunk of the solver's choosing), end of file
+			// when no writing end is open, an i/o timeout once a deadline is
+			// set, otherwise wait
+			ino := f.ino
+			// (a read is a system call: other goroutines get to run, so that
+			// a loop that polls the pipe cannot starve them under the
+			// cooperative scheduler)
+			if e.cur.id != 0 {
+				e.yield()
+			}
+			for {
+				if f.deadline {
+					return tuple{mkI64(0), e.newError("read: i/o timeout", nil)}
+				}
+				if len(ino.content) > 0 {
+					max := len(ino.content)
+					if len(buf) < max {
+						max = len(buf)
+					}
+					if max > 3 {
+						max = 3
+					}
+					k := 1
+					if max > 1 {
+						k = 1 + e.choose(max)
+						if k == max {
+							// the largest choice stands for "everything there is"
+							k = len(ino.content)
+							if len(buf) < k {
+								k = len(buf)
+							}
+						}
+					}
+					copy(buf[:k], bytesToSlice(ino.content[:k]))
+					ino.content = ino.content[k:]
+					return tuple{mkI64(int64(k)), iface{}}
+				}
+				if ino.writers == 0 {
+					return tuple{mkI64(0), f.eof}
+				}
+				e.block("read of an empty pipe", func() bool { return f.deadline || len(ino.content) > 0 || ino.writers == 0 })
+			}
+		}
 		if f.off >= len(f.ino.content) {
 			return tuple{mkI64(0), f.eof}
 		}
@@ -370,6 +442,18 @@ func init() {
 		}
 		f.off = np
 		return tuple{mkI64(int64(np)), iface{}}
+	}
+	stubs["(*os.File).SetReadDeadline"] = func(e *Exec, fn *ssa.Function, args []value) value {
+		fileOf(args[0]).deadline = true
+		return iface{}
+	}
+	stubs["os.IsTimeout"] = func(e *Exec, fn *ssa.Function, args []value) value {
+		if o, ok := args[0].(iface).v.(*errObj); ok {
+			if s, isS := o.msg.(string); isS {
+				return Bool{C: strings.HasSuffix(s, "i/o timeout")}
+			}
+		}
+		return Bool{C: false}
 	}
 	stubs["os.SameFile"] = func(e *Exec, fn *ssa.Function, args []value) value {
 		a, ok1 := args[0].(iface).v.(*infoObj)
